@@ -1,5 +1,5 @@
 (* C08 -- direct requirements get their best candidate. *)
-From Resolvo Require Import Spec.Oracle.
+From Resolvo Require Import Spec.Oracle Cdcl.CheckRun.
 
 Theorem C08_oracle_sound : forall u P fs,
   o_explicit_first u P = Some fs ->
@@ -7,3 +7,20 @@ Theorem C08_oracle_sound : forall u P fs,
   (exists S, valid (table_provider u) P S [] /\ forall f, In f fs -> In f S) /\
   (forall r f, In r (pr_reqs P) -> first_choice (table_provider u) r = Some f -> In f fs).
 Proof. exact o_explicit_first_sound. Qed.
+
+(* every run that announces a solution, on a problem whose first-ranked root
+   candidates are jointly installable, announces one containing them all *)
+Theorem C08_explicit_first : forall U P, WF U -> forall db Sx,
+  pr_soft P = [] -> root_singles P -> valid U P Sx [] -> has_root_firsts U P Sx ->
+  facts_ok U P db = true -> learnts_ok [] db = true ->
+  forall evs tr sol,
+  run_events (pr_soft P) db evs [] = Some tr -> check_sat U P db (tlits tr) sol = true ->
+  forall r f, In r (pr_reqs P) -> first_choice U r = Some f -> In f sol.
+Proof. exact explicit_final. Qed.
+
+(* trace inclusion *)
+Theorem C08_trace_explicit : forall u P lg sol Sx,
+  check_sat_log u P lg sol = true -> pr_soft P = [] -> root_singles P ->
+  valid (table_provider u) P Sx [] -> has_root_firsts (table_provider u) P Sx ->
+  forall r f, In r (pr_reqs P) -> first_choice (table_provider u) r = Some f -> In f sol.
+Proof. exact sat_log_explicit. Qed.
